@@ -190,6 +190,9 @@ func (mv mapValue) Contains(iv Value) bool {
 	switch {
 	case kt == ir.Type():
 		return mr.MapIndex(ir).IsValid()
+	case kt.Kind() == reflect.Interface && ir.Type().Comparable():
+		// map[any]T (what a YAML decoder produces): the key is looked up as it is
+		return safeMapIndex(mr, ir).IsValid()
 	case kt.Kind() == reflect.String && ir.Kind() == reflect.String:
 		// one or both are of a named string type
 		return mr.MapIndex(ir.Convert(kt)).IsValid()
